@@ -55,6 +55,8 @@ func (reg *Reg) ManifestDelete(ctx context.Context, r ref.Ref, opts ...scheme.Ma
 				if err != nil && !errors.Is(err, errs.ErrNotFound) {
 					return err
 				}
+				// a listing that runs while the delete request is in flight caches the referrers again, drop them once the request is done
+				defer reg.cacheRL.Delete(r.SetDigest(sDesc.Digest.String()))
 			}
 		}
 	}
